@@ -515,7 +515,7 @@ func (c *diskCache) availableOrTryProxy(kind cache.EntryKind, hash string, size 
 					verifPoint("get.beforeFailedRemove", key, 0)
 
 					c.mu.Lock()
-					c.lru.RemoveElement(listElem)
+					c.lru.RemoveElementIfCurrent(listElem, item)
 					c.mu.Unlock()
 				} else {
 					return rc, item.size, false, nil
